@@ -53,7 +53,11 @@ def judge_c11(scn, run) -> Tuple[List[tuple], Dict[str, int]]:
         today1 = localtime.local_dt(z, o.get("wall1", o["wall"])).date()
         if today1 != today:
             cnt(c, "probe:clock-crossed-midnight-during-call")
-            cands = cands + [e for e in localtime.epochs_for(z, today1, int(s[:2]), int(s[3:])) if e not in cands]
+            more = localtime.epochs_for(z, today1, int(s[:2]), int(s[3:]))
+            if not more or not cands:
+                cnt(c, "grey:nonexistent-local-time")      # the time does not exist on one of the two possible dates
+                continue
+            cands = cands + [e for e in more if e not in cands]
         if not cands:
             cnt(c, "grey:nonexistent-local-time")
             continue
